@@ -42,6 +42,12 @@ CHECKS = {
          '12 800 (quick) / 192 000 (thorough) planted faults: an invalid expression at 31 kinds of site (every statement argument, first/middle/last part of define and attributes lists incl. after ;; and entities, ${} in text, attributes, comments, CDATA, string:, after pipes and prefixes, multi-line tags, data attributes) and 23 kinds of language error, in randomised surroundings (newlines, tabs, non-ASCII, comments, elements before). Required: a TemplateError subclass, token text and offset exactly the planted substring (inside the offending construct for language errors), line/column derived from the offset; the un-planted variant of every case must compile. ~700 000 Token-algebra evaluations per quick run.',
          'Trusted: the site catalogue and its serialiser offsets; for language errors "offending substring" is read as "an aligned token inside the offending attribute or tag".',
          'DESIGN.md §3 C11'),
+ 'C18': ('invariant-hooks+metamorphic',
+         'runtime monitor M-out (independent reader scans every rendering for template-namespace attributes, elements, declarations and data-<lang>- attributes) + metamorphic equality of real renderings across per-statement re-spellings + foreign-attribute preservation read back from the output',
+         'exploration',
+         '4 000 (quick) / 64 000 (thorough) generated programs, each rendered in the default spelling, with enable_data_attributes switched on, and in 4 re-spellings (per-statement choice of default prefix / renamed prefix / data attribute; declarations on the element, an ancestor or the root; unprefixed statements on tal:-namespace elements, also with a renamed element prefix); all renderings must be equal, leak-free, and every rendered start tag must carry exactly the foreign attributes written on its source element, in order.',
+         'Trusted: html.parser and the 20-line strict tag scanner; the generator keeps programs valid (no content+replace etc.).',
+         'DESIGN.md §3 C18'),
 }
 NOT_YET = {}
 
